@@ -1,0 +1,108 @@
+// Copyright © 2022-2026 Obol Labs Inc. Licensed under the terms of a Business Source License 1.1
+
+//go:build verif
+
+// Verification contracts (comments only; read by /verif/govc, never compiled into charon).
+package qbft
+
+//@ pure pbv1.QBFTMsg.GetType pbv1.QBFTMsg.GetDuty pbv1.QBFTMsg.GetPeerIdx pbv1.QBFTMsg.GetRound pbv1.QBFTMsg.GetPreparedRound
+//@ pure pbv1.QBFTMsg.GetSignature pbv1.QBFTMsg.GetValueHash pbv1.QBFTMsg.GetPreparedValueHash
+//@ pure pbv1.Duty.GetType pbv1.Duty.GetSlot
+//@ pure pbv1.QBFTConsensusMsg.GetMsg pbv1.QBFTConsensusMsg.GetJustification pbv1.QBFTConsensusMsg.GetValues
+//@ pure core.DutyFromProto Consensus.gaterFunc
+//@ axiom cloneFresh: all(m, *pbv1.QBFTMsg, proto.Clone(m).(*pbv1.QBFTMsg) != m && proto.Clone(m).(*pbv1.QBFTMsg) != nil)
+//@ pure proto.Clone k1util.Recover k1util.Sign PublicKey.IsEqual k1.PublicKey.IsEqual secp256k1.PublicKey.IsEqual anypb.Any.UnmarshalNew
+
+//@ spec func signedHash(msg *pbv1.QBFTMsg) [32]byte = res(0, hashProto(proto.Clone(msg).(*pbv1.QBFTMsg)))
+//@ spec func sigValid(msg *pbv1.QBFTMsg, pk *k1.PublicKey) bool =
+//@+   res(1, k1util.Recover(signedHash(msg)[:], msg.GetSignature())) == nil &&
+//@+   res(0, k1util.Recover(signedHash(msg)[:], msg.GetSignature())).IsEqual(pk)
+//@ spec func wellFormed(msg *pbv1.QBFTMsg) bool = msg != nil && msg.GetDuty() != nil &&
+//@+   msg.GetType() > 0 && msg.GetType() < 6 && msg.GetDuty().GetType() > 0 && msg.GetDuty().GetType() < 14 &&
+//@+   msg.GetRound() > 0 && msg.GetPreparedRound() >= 0
+
+//@ func hashProto
+//@ assume-contract deterministic function of the message contents (proto.MarshalOptions{Deterministic: true} + SSZ merkleisation); collision resistance is axiom A-CR
+//@ pure
+
+//@ func verifyMsgSig
+//@ props C05
+//@ pure
+//@ assigns clone.Signature
+//@ ensures r1 == nil ==> (r0 <==> sigValid(msg, pubkey))
+//@ ensures r1 == nil ==> msg.Signature != nil
+//@ canary r1 != nil
+
+//@ func signMsg
+//@ props C05
+//@ assigns clone.Signature
+//@ callreq k1util.Sign: a2 == signedHash(msg)[:]
+//@ ensures r1 == nil ==> r0 == proto.Clone(msg).(*pbv1.QBFTMsg)
+//@ ensures r1 == nil ==> ncalls(k1util.Sign) == 1
+
+//@ func verifyMsg
+//@ props C05
+//@ pure
+//@ ensures result == nil ==> wellFormed(msg)
+//@ ensures result == nil ==> has(pubkeys, msg.GetPeerIdx()) && res(1, verifyMsgSig(msg, pubkeys[msg.GetPeerIdx()])) == nil && res(0, verifyMsgSig(msg, pubkeys[msg.GetPeerIdx()]))
+//@ canary result != nil
+
+//@ func verifyMsgLimits
+//@ props C05 C04
+//@ pure
+//@ requires 0 <= nodes && nodes <= 1048576
+//@ ensures result == nil <==> (len(pbMsg.GetJustification()) <= 2*nodes && len(pbMsg.GetValues()) <= 2*(len(pbMsg.GetJustification())+1))
+
+//@ func toHash32
+//@ props C05
+//@ pure
+//@ ensures r1 ==> len(val) == 32 && r0 != [32]byte{}
+//@ ensures !r1 ==> r0 == [32]byte{}
+//@ canary r1
+
+//@ func valuesByHash
+//@ props C05
+//@ pure
+//@ ensures r1 == nil ==> forallk(h, r0, exists(k, 0, len(values), r0[h] == values[k] && res(1, values[k].UnmarshalNew()) == nil &&
+//@+   res(1, hashProto(res(0, values[k].UnmarshalNew()))) == nil && res(0, hashProto(res(0, values[k].UnmarshalNew()))) == h))
+//@ ensures r1 == nil ==> forall(k, 0, len(values), exists(h, 0, 1, has(r0, res(0, hashProto(res(0, values[k].UnmarshalNew()))))))
+//@ loop 1 invariant forallk(h, resp, exists(k, 0, $i, resp[h] == values[k] && res(1, values[k].UnmarshalNew()) == nil &&
+//@+   res(1, hashProto(res(0, values[k].UnmarshalNew()))) == nil && res(0, hashProto(res(0, values[k].UnmarshalNew()))) == h))
+//@ loop 1 invariant forall(k, 0, $i, has(resp, res(0, hashProto(res(0, values[k].UnmarshalNew())))))
+
+//@ func newMsg
+//@ props C05 C04
+//@ pure
+//@ ensures r1 == nil ==> pbMsg != nil && r0.msg == pbMsg && r0.values == values && r0.justificationProtos == justification
+//@ ensures r1 == nil ==> (res(1, toHash32(pbMsg.GetValueHash())) ==> has(values, r0.valueHash) && r0.valueHash == res(0, toHash32(pbMsg.GetValueHash())))
+//@ ensures r1 == nil ==> (!res(1, toHash32(pbMsg.GetValueHash())) ==> r0.valueHash == [32]byte{})
+//@ ensures r1 == nil ==> (res(1, toHash32(pbMsg.GetPreparedValueHash())) ==> has(values, r0.preparedValueHash) && r0.preparedValueHash == res(0, toHash32(pbMsg.GetPreparedValueHash())))
+//@ ensures r1 == nil ==> len(r0.justification) == len(justification)
+//@ ensures r1 == nil ==> forall(k, 0, len(justification), res(1, newMsg(justification[k], nil, values)) == nil)
+//@ canary r1 != nil
+//@ loop 1 invariant len(justImpls) == $i
+//@ loop 1 invariant forall(k, 0, $i, res(1, newMsg(justification[k], nil, values)) == nil)
+
+//@ func (c *Consensus) handle
+//@ props C05
+//@ requires len(c.pubkeys) <= 1048576
+//@ callreq send c.getRecvBuffer(duty): pbMsg != nil && verifyMsg(pbMsg.GetMsg(), c.pubkeys) == nil
+//@ callreq send c.getRecvBuffer(duty): duty == core.DutyFromProto(pbMsg.GetMsg().GetDuty()) && c.gaterFunc(duty)
+//@ callreq send c.getRecvBuffer(duty): verifyMsgLimits(pbMsg, len(c.pubkeys)) == nil
+//@ callreq send c.getRecvBuffer(duty): forall(k, 0, len(pbMsg.GetJustification()), verifyMsg(pbMsg.GetJustification()[k], c.pubkeys) == nil && core.DutyFromProto(pbMsg.GetJustification()[k].GetDuty()) == duty)
+//@ callreq send c.getRecvBuffer(duty): res(1, valuesByHash(pbMsg.GetValues())) == nil && res(1, newMsg(pbMsg.GetMsg(), pbMsg.GetJustification(), res(0, valuesByHash(pbMsg.GetValues())))) == nil
+//@ callreq send c.getRecvBuffer(duty): a1 == res(0, newMsg(pbMsg.GetMsg(), pbMsg.GetJustification(), res(0, valuesByHash(pbMsg.GetValues()))))
+//@ callreq send c.getRecvBuffer(duty): status != core.DeadlineExpired && status != core.DeadlineExempt
+//@ ensures r2 == nil ==> ncalls("send c.getRecvBuffer(duty)") == 1
+//@ ensures r2 != nil ==> ncalls("send c.getRecvBuffer(duty)") == 0
+//@ ensures ncalls(c.deadliner.Add) <= 1
+//@ canary r2 != nil
+//@ loop 1 invariant forall(k, 0, $i, verifyMsg(pbMsg.GetJustification()[k], c.pubkeys) == nil && core.DutyFromProto(pbMsg.GetJustification()[k].GetDuty()) == duty)
+//@ loop 1 invariant ncalls("send c.getRecvBuffer(duty)") == 0 && ncalls(c.deadliner.Add) == 0
+
+//@ func leader
+//@ props C02 C04
+//@ mode bv
+//@ requires duty.Slot < 1<<62 && 0 <= duty.Type && duty.Type < 64 && 1 <= round && round < 1<<61 && 1 <= nodes && nodes <= 1<<31
+//@ ensures 0 <= result && result < int64(nodes)
+//@ ensures result == (int64(duty.Slot) + int64(duty.Type) + round) % int64(nodes)
